@@ -103,6 +103,20 @@ CHECKS = {
         "design_ref": "DESIGN.md section 4, C12",
         "level_note": E4_NOTE + " Not decided: trichotomy / sorted() numerically at floating-point ties; overlap equality is not transitive by design.",
     },
+    "C13": {
+        "engine": "E5+E6+E1",
+        "technique": "symbol-table analysis over the evaluated declarations (every prefix x unit spelling resolved in the code's order and compared by exact size); string-language abstraction of the formatter (regular language over piece classes from static types) driven through the shipped LALR tables with a contextual lexer; table rules for superscripts and separators; memo-over-registry rule",
+        "level_text": "Exhaustive over the shipped configuration for the symbol table (28 prefixes x 176 symbols, all names) and over the abstracted formatter language for shapes with 1-3 terms (induction over term+ covers longer products). Twelve genuine defects (seven colliding spellings such as cd / Pa / ha, a leading magnitude and a base-power prefix form in unit_str, inf/nan magnitudes) are reproduced and listed as known findings, hence 'other'; any new colliding symbol, unlexable symbol, or formatter piece without a grammar counterpart is a violation.",
+        "design_ref": "DESIGN.md section 4, C13",
+        "level_note": "Trusted: E5's model and unit sizes (C09), shipped tables equal the grammar (C16), mypy expression types behind the string abstraction. Not decided: identity of the parsed-back object; every subset of imported modules.",
+    },
+    "C15": {
+        "engine": "E1+E6+E5",
+        "technique": "structural agreement rules between sibling codecs (__getnewargs_ex__ vs __new__ key parameters; __json__ keys vs __from_json__ reads; tag dispatch table; Decimal writer/reader pairing; pickle hook inventory) + the formatter-language inclusion of C13 at the serialisation sites",
+        "level_text": "Writer and reader of each representation are compared as tables extracted from the AST: keys, tags, positions and type conversions must agree, and nothing may route a Quantity's unit through text for pickle/copy. The stored unit text is str(unit); its language is checked against the parser (three known findings inherited from C13, hence 'other').",
+        "design_ref": "DESIGN.md section 4, C15",
+        "level_note": "Trusted: CPython's pickle/copy/json protocols; E5 tables (every base unit is named). Not decided: equality of decoded float magnitudes; third-party serializers.",
+    },
     "C14": {
         "engine": "E1+E4",
         "technique": "abstract interpretation of every Measurement operator to normal forms (rational functions with sqrt/abs heads); symbolic differentiation of the method's own measurand expression; units-of-measure typing of the stored uncertainty",
